@@ -316,6 +316,12 @@ func (r *Run) Max(name string, v int) {
 	r.mu.Unlock()
 }
 
+func (r *Run) MaxOf(name string) int64 {
+	r.mu.Lock()
+	defer r.mu.Unlock()
+	return r.maxes[name]
+}
+
 func (r *Run) Counter(name string) int64 {
 	r.mu.Lock()
 	defer r.mu.Unlock()
